@@ -66,7 +66,7 @@ def run(chk: Check):
            describe=lambda r: f"family {r.trace['hdr']['family']} step {r.trace['hdr']['step']}")
     # mh_step through every model interface, eagerly, several steps on the same state object with different blocks
     from harness import mhiface_driver as MI
-    itr = MI.traces([rng.randrange(1 << 30) for _ in range(6 if chk.quick else 120)], rng)
+    itr = MI.traces([rng.randrange(1 << 30) for _ in range(6 if chk.quick else 120)])
     chk.tv("Trace_MHIface.tla", itr, tag="interfaces",
            keyfn=lambda r: f"iface:{r.trace['hdr']['family']}:{r.conjunct}",
            describe=lambda r: str(r.trace["ev"][r.line - 1])[:500])
@@ -78,6 +78,11 @@ def run(chk: Check):
 def replay(chk: Check, data):
     """Re-run the recorded key through the real mh_step and re-validate."""
     hdr = data["replay"]["trace"]["hdr"]
+    if hdr.get("family") in ("dict", "dataclass", "liesel") and "mode" not in hdr:
+        from harness import mhiface_driver as MI
+        chk.tv("Trace_MHIface.tla", [MI.trace(hdr["seed"], hdr["family"])], tag="interfaces",
+               keyfn=lambda r: f"iface:{r.trace['hdr']['family']}:{r.conjunct}")
+        return
     cmb = [(float(e["cur"]), float(e["prop"]), float(e["corr"])) for e in data["replay"]["trace"]["ev"]]
     traces = D.traces_for_keys([hdr["seed"]], cmb, hdr["mode"])
     chk.tv("Trace_MHStep.tla", traces, tag="mh_step", keyfn=lambda r: f"mh_step:{r.conjunct}")
